@@ -371,8 +371,16 @@ Record pstate := mkps {
   ps_prev : digest;
   ps_view : alist (option (N * list N)); (* session -> room and member set it can reconstruct: None = in no room *)
   ps_queue : alist (list (N * N));       (* session -> (kind, tag) of messages addressed to it while disconnected *)
+  ps_broken : list N;                    (* connections the server can no longer write to (it still believes them connected) *)
 }.
-Definition ps_init : pstate := mkps empty_digest [] [].
+Definition ps_init : pstate := mkps empty_digest [] [] [].
+(* a session is reachable when it has a connection the server can write to *)
+Definition writable (broken : list N) (x : sd) : bool :=
+  match x.(d_conn) with Some c => negb (nmem c broken) | None => false end.
+Definition wfail_of (pd : digest) (o : op) : option N :=
+  match o with
+  | OConnect c _ => match sd_of_conn pd c with Some _ => Some c | None => None end
+  | _ => None end.
 
 Definition apply_view (v : option (N * list N)) (m : smsg) : option (N * list N) :=
   match m with
@@ -407,9 +415,9 @@ Definition update_views (pd dg : digest) (ob : obs) (views : alist (option (N * 
             end) msgs (sid0, acc))) ob.(o_recv) views.
 
 (* once activity stopped every connected member's replayed view is the member set the server holds *)
-Definition observers_ok (dg : digest) (views : alist (option (N * list N))) : bool :=
+Definition observers_ok_b (broken : list N) (dg : digest) (views : alist (option (N * list N))) : bool :=
   forallb (fun x =>
-     if is_virtual_d x then true
+     if is_virtual_d x || negb (writable broken x) then true   (* nothing can be written to it now: judged after its resume *)
      else match x.(d_conn), x.(d_room) with
           | Some _, Some k =>
               match room_entry dg k, aget views x.(d_sid) with
@@ -418,6 +426,7 @@ Definition observers_ok (dg : digest) (views : alist (option (N * list N))) : bo
           | Some _, None => match aget views x.(d_sid) with Some (Some _) => false | _ => true end
           | None, _ => true
           end) dg.(g_sessions).
+Definition observers_ok := observers_ok_b [].
 
 Definition smsg_tags (l : list smsg) : list (N * N) :=
   flat_map (fun m => match m with SMsg k _ _ _ _ t => [(k, t)] | _ => [] end) l.
@@ -428,7 +437,7 @@ Definition smsg_tags (l : list smsg) : list (N * N) :=
 Definition qadd (l : list (N * N)) (e : N * N) : list (N * N) :=
   if pair_eqb e (0, 77) && existsb (pair_eqb (0, 77)) l then l else l ++ [e].
 
-Definition update_queue (pd : digest) (o : op) (q : alist (list (N * N))) : alist (list (N * N)) :=
+Definition update_queue_b (broken : list N) (pd : digest) (o : op) (q : alist (list (N * N))) : alist (list (N * N)) :=
   match o with
   | OMsg c to tag | OCtl c to tag =>
       let kindn := match o with OCtl _ _ _ => 1 | _ => 0 end in
@@ -437,13 +446,13 @@ Definition update_queue (pd : digest) (o : op) (q : alist (list (N * N))) : alis
       | Some s =>
           let targets := if N.eqb kindn 1 && negb (control_allowed s) then [] else route_spec pd s to in
           fold_left (fun acc t => match find_sd pd (fst t) with
-                                  | Some x => match x.(d_conn) with
-                                              | None => aset acc (fst t) (qadd (match aget acc (fst t) with Some l => l | None => [] end) (kindn, tag))
-                                              | Some _ => acc end
+                                  | Some x => if writable broken x then acc
+                                              else aset acc (fst t) (qadd (match aget acc (fst t) with Some l => l | None => [] end) (kindn, tag))
                                   | None => acc end) targets q
       end
   | _ => q
   end.
+Definition update_queue := update_queue_b [].
 
 Definition step_C06 (ps : pstate) (o : op) (ob : obs) (dg : digest) : bool :=
   let pd := ps.(ps_prev) in
@@ -491,7 +500,8 @@ Definition step_C06 (ps : pstate) (o : op) (ob : obs) (dg : digest) : bool :=
                       | None => false end
                       (* a second resume takes over: the previous connection is told and closed *)
                       && match x.(d_conn) with
-                         | Some c0 => N.eqb c0 c || (existsb (smsg_eqb (SBye 3)) (recv_of ob c0) && nmem c0 ob.(o_closed))
+                         | Some c0 => N.eqb c0 c || nmem c0 ps.(ps_broken) ||
+                                      (existsb (smsg_eqb (SBye 3)) (recv_of ob c0) && nmem c0 ob.(o_closed))
                          | None => true end
                     end
               | None =>
@@ -519,12 +529,14 @@ Record pcfg := mkpcfg { pc_limits : list N; pc_quiescent : bool }.
 
 Definition ps_next (ps : pstate) (o : op) (ob : obs) (dg : digest) : pstate :=
   let pd := ps.(ps_prev) in
-  let q1 := update_queue pd o ps.(ps_queue) in
+  let q1 := update_queue_b ps.(ps_broken) pd o ps.(ps_queue) in
+  let br1 := match wfail_of pd o with Some c => nadd c ps.(ps_broken) | None => ps.(ps_broken) end in
+  let br2 := filter (fun c => match sd_of_conn dg c with Some _ => true | None => false end) br1 in
   (* a successful resume empties the queue of that session; ended sessions are forgotten *)
   let q2 := match o with
             | OHello c (HResume (IdPriv n)) => match sd_of_conn dg c with Some x => if N.eqb x.(d_sid) n then adel q1 n else q1 | None => q1 end
             | _ => q1 end in
-  mkps dg (update_views pd dg ob ps.(ps_view)) (filter (fun e => live dg (fst e)) q2).
+  mkps dg (update_views pd dg ob ps.(ps_view)) (filter (fun e => live dg (fst e)) q2) br2.
 
 (* clause numbers reported with a failure *)
 Definition check_step (which : N) (cfg : pcfg) (last : bool) (ps : pstate) (o : op) (ob : obs) (dg : digest) : N :=
@@ -537,7 +549,7 @@ Definition check_step (which : N) (cfg : pcfg) (last : bool) (ps : pstate) (o : 
   | 4 => if negb (digest_C04 dg) then 1
          (* observers are compared once activity stopped: after every op in the quiescent
             semantics, at the end of a history with explicit deliveries *)
-         else if (cfg.(pc_quiescent) || last) && negb (observers_ok dg views) then 2 else 0
+         else if (cfg.(pc_quiescent) || last) && negb (observers_ok_b ps.(ps_broken) dg views) then 2 else 0
   | 5 => if negb cfg.(pc_quiescent) || step_C05 pd o ob then 0 else 1
   | 6 => if negb cfg.(pc_quiescent) || step_C06 ps o ob dg then 0 else 1
   | 7 => if digest_C07 cfg.(pc_limits) dg then 0 else 1
@@ -576,10 +588,10 @@ Definition hold_ok (md dg : digest) : bool :=
      | None => true end) dg.(g_sessions).
 
 Definition check_step_spec (which : N) (cfg : pcfg) (last : bool) (ps : pstate) (md md' : digest) (o : op) (ob : obs) (dg : digest) : N :=
-  let ps' := mkps md ps.(ps_view) ps.(ps_queue) in
+  let ps' := mkps md ps.(ps_view) ps.(ps_queue) ps.(ps_broken) in
   match check_step which cfg last ps' o ob dg with
   | 0 => match which with
-         | 4 => if (cfg.(pc_quiescent) || last) && negb (observers_ok md' (update_views md dg ob ps.(ps_view))) then 12 else 0
+         | 4 => if (cfg.(pc_quiescent) || last) && negb (observers_ok_b ps.(ps_broken) md' (update_views md dg ob ps.(ps_view))) then 12 else 0
          | 8 => if hold_ok md' dg then 0 else 13
          (* nothing is open, or held, in the implementation that the model has closed ("outlives its owner") *)
          | 9 => if forallb (fun x => match find_sd md' x.(d_sid) with
